@@ -216,7 +216,7 @@ def _edit_bundle(data, gen):
     if data and cc < 0.5:
         k = r.choice(sorted(data))
         v = data[k]
-        if isinstance(v, str) and (k.startswith("text/") or k in ("image/svg+xml", "application/javascript")):
+        if isinstance(v, str) and (k.startswith("text/") or k in ("image/svg+xml", "application/javascript") or (k.endswith("json") and "\n" in v)):
             data[k] = edit_text(v, gen, OUT_LINES)
         else:
             nb = gen.mimebundle()
